@@ -160,6 +160,8 @@ def fifo_behaviour(rng, nkeys):
     k = 1
     times = []
     i = 0
+    # monotonic order: increasing, or (one in three) decreasing keys
+    down = rng.random() < 0.34
     while k <= nkeys:
         t += rng.choice([0, 1, 5, 10])
         ops.append({"op": "clock", "t": t})
@@ -167,7 +169,8 @@ def fifo_behaviour(rng, nkeys):
             if k > nkeys:
                 break
             i += 1
-            ops.append({"op": "write", "items": [{"k": k, "t": "V", "v": (i % 97) + 1}]})
+            ops.append({"op": "write", "items": [{"k": (nkeys + 1 - k) if down else k, "t": "V",
+                                                  "v": (i % 97) + 1}]})
             k += 1
         ops.append({"op": "rotate"})
         ops.append({"op": "flush", "w": rng.choice([0, "safe"])})
@@ -185,9 +188,11 @@ def fifo_behaviour(rng, nkeys):
 def _fifo(ops, rng, now, times):
     op = {"op": "fifo", "limit": rng.choice(["ge_total", "total_minus_1", "half", "one", "ge_total"]),
           "w": rng.choice([0, "safe"])}
-    kind = rng.choice(["none", "none", "all", "some", "no"])
+    kind = rng.choice(["none", "none", "all", "some", "no", "zero"])
     if kind == "all":
         op["ttl"] = 1
+    elif kind == "zero":
+        op["ttl"] = 0       # documented as "TTL disabled"
     elif kind == "some" and len(times) >= 2:
         cut = rng.choice(times[:-1])
         op["ttl"] = max(1, now - cut)
@@ -199,3 +204,58 @@ def _fifo(ops, rng, now, times):
 def fifo_behaviours(seed, count, nkeys):
     rng = random.Random(seed)
     return [fifo_behaviour(rng, nkeys) for _ in range(count)]
+
+
+_M = (1 << 64) - 1
+
+
+def phys_of(i):
+    """Mirror of harness/src/model.rs Phys::from_index (block size, restart interval, hash ratio)."""
+    x = ((i * 0x9E3779B97F4A7C15) & _M) ^ 0xD1B54A32D192ED03
+
+    def pick(n):
+        nonlocal x
+        x ^= x >> 30
+        x = (x * 0xBF58476D1CE4E5B9) & _M
+        x ^= x >> 27
+        x = (x * 0x94D049BB133111EB) & _M
+        x ^= x >> 31
+        return x % n
+    return {"block_size": [1, 64, 4096][pick(3)], "restart": [1, 2, 16][pick(3)],
+            "hash_ratio": [0.0, 0.75, 8.0][pick(3)]}
+
+
+DEEP_PHYS = [i for i in range(1, 400)
+             if phys_of(i)["block_size"] == 4096 and phys_of(i)["restart"] == 1]
+
+
+def deep_behaviour(rng, nkeys):
+    """One data block with more restart intervals than a u8 can count (> 254): a long version
+    chain of key 1 kept by a held snapshot and watermark 0, the other keys behind it; point
+    reads at the newest and at the held snapshot land in the tail of the block. Runs under
+    configurations with 4 KiB blocks and restart interval 1 (with and without hash index)."""
+    ops = [{"op": "_meta", "phys_list": rng.sample(DEEP_PHYS, 4), "key_alpha": 0, "val_alpha": 0,
+            "blob": None}]
+    n = rng.choice([253, 254, 255, 256, 258, 262])
+    snap_at = rng.choice([3, 10, 40])
+    for i in range(n):
+        ops.append({"op": "write", "items": [{"k": 1, "t": "V", "v": (i % 9) + 1}]})
+        if i == snap_at:
+            ops.append({"op": "snap"})
+    for k in range(2, nkeys + 1):
+        ops.append({"op": "write", "items": [{"k": k, "t": rng.choice(["V", "V", "T"]), "v": k}]})
+    for o in ops:
+        for it in o.get("items", []):
+            if it["t"] == "T":
+                it["v"] = 0
+    ops += [{"op": "rotate"}, {"op": "flush", "w": 0}, {"op": "snap"},
+            {"op": "write", "items": [{"k": 1, "t": "V", "v": 7}]},
+            {"op": "major", "split": "none", "w": 0}, {"op": "release", "which": "oldest"},
+            {"op": "release", "which": "oldest"}, {"op": "reopen"}]
+    return ops
+
+
+def deep_behaviours(seed, count, nkeys):
+    rng = random.Random(seed)
+    return [deep_behaviour(rng, nkeys) for _ in range(count)]
+
